@@ -256,7 +256,8 @@ class Flow:
         if d.kind == "assign" or d.kind == "walrus":
             t = self.term(d.value, d.node, depth + 1)
             for p in d.path:
-                t = mk_idx(t, ("const", repr(p)))
+                fld = record_field(self.model, t, index=p) if isinstance(p, int) else None
+                t = fld if fld is not None else mk_idx(t, ("const", repr(p)))
             return t
         if d.kind == "for":
             t = ("elem", self.term(d.value, self._iter_node(d), depth + 1))
@@ -354,6 +355,9 @@ class Flow:
                     g = global_term(self.model, m2, e.attr)
                     if g[0] in ("func", "class", "global"):
                         return g
+            fld = record_field(self.model, base, e.attr)
+            if fld is not None:
+                return fld
             return ("attr", base, e.attr)
         if isinstance(e, ast.Subscript):
             return mk_idx(self.term(e.value, node, d1), self.term(e.slice, node, d1))
@@ -396,12 +400,20 @@ class Flow:
             return ("op", type(e.op).__name__, tuple(self.term(v, node, d1) for v in e.values))
         if isinstance(e, ast.Compare):
             ops = "/".join(type(o).__name__ for o in e.ops)
-            return ("op", "cmp:" + ops, (self.term(e.left, node, d1),) + tuple(self.term(c, node, d1) for c in e.comparators))
+            operands = (self.term(e.left, node, d1),) + tuple(self.term(c, node, d1) for c in e.comparators)
+            if len(operands) == 2 and ops in ("Is", "IsNot", "Eq", "NotEq"):
+                same = enum_members_equal(self.model, operands[0], operands[1])
+                if same is not None:
+                    return ("const", repr(same if ops in ("Is", "Eq") else not same))
+            return ("op", "cmp:" + ops, operands)
         if isinstance(e, ast.IfExp):
             return ("op", "ifexp", (self.term(e.test, node, d1), self.term(e.body, node, d1), self.term(e.orelse, node, d1)))
         if isinstance(e, ast.Lambda):
             return ("lambda", self.site(e))
         if isinstance(e, (ast.ListComp, ast.SetComp, ast.GeneratorExp, ast.DictComp)):
+            if isinstance(e, (ast.ListComp, ast.GeneratorExp)) and copies_each_element(e):
+                # ``[x[:] for x in xs]``: the same sequence with every element copied
+                return ("op", "each-copied", (self.term(e.generators[0].iter, node, d1),))
             return ("comp", type(e).__name__, self.site(e))
         if isinstance(e, ast.JoinedStr):
             return ("op", "fstring", tuple(self.term(v, node, d1) for v in e.values))
@@ -433,6 +445,96 @@ def mk_idx(base, idx):
                 if alts and all(not (r[0] == "idx" and r[2] == idx) for r in alts):
                     return alts[0] if len(alts) == 1 else ("phi", tuple(sorted(alts, key=repr)))
     return ("idx", base, idx)
+
+
+def copies_each_element(e):
+    """``[g[:] for g in X]`` / ``list(g)`` / ``g.copy()`` / ``[*g]`` / ``g + []`` per element, no filter."""
+    if not (len(e.generators) == 1 and isinstance(e.generators[0].target, ast.Name) and not e.generators[0].ifs and not e.generators[0].is_async):
+        return False
+    v = e.generators[0].target.id
+    elt = e.elt
+    is_v = lambda x: isinstance(x, ast.Name) and x.id == v
+    if isinstance(elt, ast.Subscript) and is_v(elt.value) and isinstance(elt.slice, ast.Slice) and elt.slice.lower is None and elt.slice.upper is None and elt.slice.step is None:
+        return True
+    if isinstance(elt, ast.Call) and isinstance(elt.func, ast.Name) and elt.func.id == "list" and len(elt.args) == 1 and not elt.keywords and is_v(elt.args[0]):
+        return True
+    if isinstance(elt, ast.Call) and isinstance(elt.func, ast.Attribute) and elt.func.attr == "copy" and is_v(elt.func.value) and not elt.args and not elt.keywords:
+        return True
+    if isinstance(elt, ast.List) and len(elt.elts) == 1 and isinstance(elt.elts[0], ast.Starred) and is_v(elt.elts[0].value):
+        return True
+    if isinstance(elt, ast.BinOp) and isinstance(elt.op, ast.Add) and is_v(elt.left) and isinstance(elt.right, ast.List) and not elt.right.elts:
+        return True
+    return False
+
+
+def uncopied(t):
+    """``t`` with the element-wise copies (``each-copied``) looked through: the same elements up to copying."""
+    if not isinstance(t, tuple) or not t:
+        return t
+    if t[0] == "op" and t[1] == "each-copied":
+        return uncopied(t[2][0])
+    return tuple(uncopied(x) if isinstance(x, tuple) else x for x in t)
+
+
+def enum_members_equal(model, a, b):
+    """Both terms name members of one ``enum.Enum`` class of the package with pairwise distinct literal values:
+    True / False for same / different member; None when that is not the situation."""
+    if not (a[0] == "attr" and b[0] == "attr" and a[1] == b[1] and a[1][0] == "class" and a[1][1] in model.modules):
+        return None
+    cd = model.modules[a[1][1]].classes.get(a[1][2])
+    if cd is None or not any((isinstance(x, ast.Name) and x.id in ("Enum", "IntEnum", "Flag")) or (isinstance(x, ast.Attribute) and x.attr in ("Enum", "IntEnum")) for x in cd.bases):
+        return None
+    members = {}
+    for st in cd.body:
+        if isinstance(st, ast.Assign) and len(st.targets) == 1 and isinstance(st.targets[0], ast.Name) and isinstance(st.value, ast.Constant):
+            members[st.targets[0].id] = repr(st.value.value)
+    if a[2] not in members or b[2] not in members or len(set(members.values())) != len(members):
+        return None
+    return a[2] == b[2]
+
+
+def record_fields(model, cls_term):
+    """Field names of a ``typing.NamedTuple`` class of the package (in order), or None."""
+    if cls_term[0] != "class" or cls_term[1] not in model.modules:
+        return None
+    cd = model.modules[cls_term[1]].classes.get(cls_term[2])
+    if cd is None or not any((isinstance(b, ast.Name) and b.id == "NamedTuple") or (isinstance(b, ast.Attribute) and b.attr == "NamedTuple") for b in cd.bases):
+        return None
+    return [st.target.id for st in cd.body if isinstance(st, ast.AnnAssign) and isinstance(st.target, ast.Name)]
+
+
+def record_field(model, base, attr=None, index=None):
+    """``Record(a=x, b=y).a`` / ``Record(x, y)[0]`` of a NamedTuple class of the package -> the argument's term.
+
+    A small record passed between two halves of a split function is not a change of behaviour for the rules."""
+    alts = base[1] if base[0] == "phi" else (base,)
+    out = []
+    for a in alts:
+        if a == ("const", "None"):
+            continue  # the initial ``_ret = None`` of an inlined helper
+        if a[0] != "call" or a[1][0] != "class":
+            return None
+        fields = record_fields(model, a[1])
+        if fields is None:
+            return None
+        bound = {}
+        for name, v in zip(fields, a[2]):
+            bound[name] = v
+        for k, v in a[3]:
+            bound[k] = v
+        if attr is None:
+            if index is None or not (0 <= index < len(fields)):
+                return None
+            attr_ = fields[index]
+        else:
+            attr_ = attr
+        if attr_ not in bound:
+            return None
+        if bound[attr_] not in out:
+            out.append(bound[attr_])
+    if not out:
+        return None
+    return out[0] if len(out) == 1 else ("phi", tuple(sorted(out, key=repr)))
 
 
 def global_term(model, mod, name):
